@@ -231,23 +231,33 @@ static edn_result_t read_maybe_small_stack(const char* p, size_t len, edn_parse_
     return j.r;
 }
 
-/* threads: N readers of the same document (shared read-only registry); all dumps must agree */
-typedef struct { const char* p; size_t len; edn_parse_options_t* opt; char* out; size_t outlen; } th_job_t;
+/* threads: N readers over K documents (thread i reads document i mod K, 3 times), sharing one
+ * read-only registry; every dump must equal the single-threaded dump of the same document made
+ * before the threads start, and the input buffers must be unchanged afterwards */
+typedef struct { const char* p; size_t len; edn_parse_options_t* opt; const char* want; size_t wantlen; int bad; } th_job_t;
 static pthread_mutex_t g_print_mu = PTHREAD_MUTEX_INITIALIZER;
+static char* dump_to_string(edn_result_t r, size_t* outlen) {
+    pthread_mutex_lock(&g_print_mu);
+    char* mem = NULL; size_t len = 0;
+    FILE* save = stdout; FILE* ms = open_memstream(&mem, &len);
+    stdout = ms;
+    if (r.value) dump_value(r.value);
+    else printf("ERR %s %s %zu,%zu,%zu %zu,%zu,%zu", err_name(r.error), r.error_message ? r.error_message : "NULL",
+                r.error_start.offset, r.error_start.line, r.error_start.column,
+                r.error_end.offset, r.error_end.line, r.error_end.column);
+    fflush(ms); stdout = save; fclose(ms);
+    pthread_mutex_unlock(&g_print_mu);
+    *outlen = len;
+    return mem;
+}
 static void* th_job(void* arg) {
     th_job_t* j = (th_job_t*) arg;
     for (int rep = 0; rep < 3; rep++) {
         edn_result_t r = edn_read_with_options(j->p, j->len, j->opt);
-        /* serialise only the printing (dump uses stdout redirection) */
-        pthread_mutex_lock(&g_print_mu);
-        char* mem = NULL; size_t len = 0;
-        FILE* save = stdout; FILE* ms = open_memstream(&mem, &len);
-        stdout = ms;
-        if (r.value) dump_value(r.value); else printf("ERR %s %zu %zu", err_name(r.error), r.error_start.offset, r.error_end.offset);
-        fflush(ms); stdout = save; fclose(ms);
-        pthread_mutex_unlock(&g_print_mu);
-        if (rep == 0) { j->out = mem; j->outlen = len; }
-        else { if (len != j->outlen || memcmp(mem, j->out, len)) j->outlen = (size_t) -1; free(mem); }
+        size_t len = 0;
+        char* mem = dump_to_string(r, &len);
+        if (len != j->wantlen || memcmp(mem, j->want, len)) j->bad = 1;
+        free(mem);
         if (r.value) edn_free(r.value);
     }
     return NULL;
@@ -256,24 +266,43 @@ static void* th_job(void* arg) {
 static int h_dump_command(const char* cmd, int nt, char** tok) {
     if (!strcmp(cmd, "threads") && nt == 4) {
         int n = atoi(tok[1]);
-        buf_t b = buf_from_hex(tok[2]);
+        enum { MAXDOC = 16 };
+        buf_t bufs[MAXDOC]; char* copies[MAXDOC]; char* want[MAXDOC]; size_t wantlen[MAXDOC];
+        int k = 0;
+        char* sp = tok[2];
+        while (sp && *sp && k < MAXDOC) {
+            char* comma = strchr(sp, ',');
+            if (comma) *comma = 0;
+            bufs[k] = buf_from_hex(sp);
+            copies[k] = (char*) malloc(bufs[k].n + 1);
+            memcpy(copies[k], bufs[k].p, bufs[k].n);
+            k++;
+            sp = comma ? comma + 1 : NULL;
+        }
         edn_reader_registry_t* reg = registry_from_spec(tok[3]);
         edn_parse_options_t opt; memset(&opt, 0, sizeof opt); opt.reader_registry = reg;
+        for (int d = 0; d < k; d++) {
+            edn_result_t r = edn_read_with_options(bufs[d].p, bufs[d].n, &opt);
+            want[d] = dump_to_string(r, &wantlen[d]);
+            if (r.value) edn_free(r.value);
+        }
         th_job_t jobs[64]; pthread_t th[64];
         if (n > 64) n = 64;
-        for (int i = 0; i < n; i++) { jobs[i].p = b.p; jobs[i].len = b.n; jobs[i].opt = &opt; jobs[i].out = NULL; jobs[i].outlen = 0;
-                                      pthread_create(&th[i], NULL, th_job, &jobs[i]); }
-        int same = 1;
-        for (int i = 0; i < n; i++) pthread_join(th[i], NULL);
         for (int i = 0; i < n; i++) {
-            if (jobs[i].outlen == (size_t) -1 || jobs[i].outlen != jobs[0].outlen || memcmp(jobs[i].out, jobs[0].out, jobs[0].outlen)) same = 0;
+            int d = i % k;
+            jobs[i].p = bufs[d].p; jobs[i].len = bufs[d].n; jobs[i].opt = &opt;
+            jobs[i].want = want[d]; jobs[i].wantlen = wantlen[d]; jobs[i].bad = 0;
+            pthread_create(&th[i], NULL, th_job, &jobs[i]);
         }
-        printf("%s ", same ? "SAME" : "DIFFERENT");
-        fwrite(jobs[0].out, 1, jobs[0].outlen == (size_t) -1 ? 0 : jobs[0].outlen, stdout);
+        int same = 1, modified = 0;
+        for (int i = 0; i < n; i++) pthread_join(th[i], NULL);
+        for (int i = 0; i < n; i++) if (jobs[i].bad) same = 0;
+        for (int d = 0; d < k; d++) if (memcmp(copies[d], bufs[d].p, bufs[d].n)) modified = 1;
+        printf("%s%s", same ? "SAME" : "DIFFERENT", modified ? " MODIFIED" : "");
+        for (int d = 0; d < k; d++) { printf(" | "); fwrite(want[d], 1, wantlen[d], stdout); }
         printf("\n");
-        for (int i = 0; i < n; i++) free(jobs[i].out);
+        for (int d = 0; d < k; d++) { free(want[d]); free(copies[d]); buf_free(&bufs[d]); }
         if (reg) edn_reader_registry_destroy(reg);
-        buf_free(&b);
         return 1;
     }
     if (!strcmp(cmd, "freenull") && nt == 1) { edn_free(NULL); printf("ok\n"); return 1; }
